@@ -235,6 +235,8 @@ type c14Cfg struct {
 	cfs, cws, ccw, cdt, cet int // client
 	gz                      int // 1 = Transport compression enabled (adds accept-encoding: gzip)
 	early                   int // 1 = requests start before the server's SETTINGS have been processed
+	smh                     int // server http.Server.MaxHeaderBytes (0 = default); advertised MAX_HEADER_LIST_SIZE = smh+320
+	cmh                     int // Transport.MaxHeaderListSize (0 = default 10 MiB), advertised as is
 }
 
 type c14Req struct {
@@ -252,6 +254,7 @@ type c14Req struct {
 	hdr      []c14KV
 	trl      []c14KV
 	crd      int // client response body read size
+	lim      string // "-" or "<req|resp><-1|0|1>": header list size relative to the peer's advertised MAX_HEADER_LIST_SIZE
 }
 
 type c14Resp struct {
@@ -348,8 +351,8 @@ func c14B(b bool) int {
 }
 
 func (c c14Cfg) line() string {
-	return fmt.Sprintf("cfg sfs=%d sws=%d scw=%d sdt=%d set=%d cfs=%d cws=%d ccw=%d cdt=%d cet=%d gz=%d early=%d",
-		c.sfs, c.sws, c.scw, c.sdt, c.set, c.cfs, c.cws, c.ccw, c.cdt, c.cet, c.gz, c.early)
+	return fmt.Sprintf("cfg sfs=%d sws=%d scw=%d sdt=%d set=%d cfs=%d cws=%d ccw=%d cdt=%d cet=%d gz=%d early=%d smh=%d cmh=%d",
+		c.sfs, c.sws, c.scw, c.sdt, c.set, c.cfs, c.cws, c.ccw, c.cdt, c.cet, c.gz, c.early, c.smh, c.cmh)
 }
 
 func c14KVmap(toks []string) map[string]string {
@@ -703,9 +706,14 @@ func c14ParseCase(ops []string) (*c14Case, error) {
 		switch toks[0] {
 		case "cfg":
 			m := c14KVmap(toks[1:])
-			g := func(k string) int { return vu.Atoi(m[k]) }
+			g := func(k string) int {
+				if m[k] == "" {
+					return 0 // fields added later (smh, cmh) are absent from older corpus lines
+				}
+				return vu.Atoi(m[k])
+			}
 			c.cfg = c14Cfg{sfs: g("sfs"), sws: g("sws"), scw: g("scw"), sdt: g("sdt"), set: g("set"),
-				cfs: g("cfs"), cws: g("cws"), ccw: g("ccw"), cdt: g("cdt"), cet: g("cet"), gz: g("gz"), early: g("early")}
+				cfs: g("cfs"), cws: g("cws"), ccw: g("ccw"), cdt: g("cdt"), cet: g("cet"), gz: g("gz"), early: g("early"), smh: g("smh"), cmh: g("cmh")}
 			haveCfg = true
 		case "req":
 			m, gr := c14Groups(toks[1:])
@@ -713,7 +721,10 @@ func c14ParseCase(ops []string) (*c14Case, error) {
 				host: string(vu.MustHex(m["host"])), uhost: string(vu.MustHex(m["uhost"])),
 				path: string(vu.MustHex(m["path"])), cl: vu.Atoi64(m["cl"]), nilBody: m["nil"] == "1",
 				body: c14ParseBody(m["body"]), rd: c14ParseInts(m["rd"]), eofLast: m["eof"] == "1",
-				crd: vu.Atoi(m["crd"]), hdr: gr["H"], trl: gr["T"]}
+				crd: vu.Atoi(m["crd"]), hdr: gr["H"], trl: gr["T"], lim: m["lim"]}
+			if r.lim == "" {
+				r.lim = "-"
+			}
 			if r.idx != len(c.reqs) {
 				return nil, errors.New("req index out of order")
 			}
@@ -750,9 +761,16 @@ func c14ParseCase(ops []string) (*c14Case, error) {
 }
 
 func (r *c14Req) line() string {
-	return fmt.Sprintf("req i=%d m=%s sch=%s host=%s uhost=%s path=%s cl=%d nil=%d body=%s rd=%s eof=%d crd=%d%s%s",
+	return fmt.Sprintf("req i=%d m=%s sch=%s host=%s uhost=%s path=%s cl=%d nil=%d body=%s rd=%s eof=%d crd=%d lim=%s%s%s",
 		r.idx, c14HexS(r.method), r.scheme, c14HexS(r.host), c14HexS(r.uhost), c14HexS(r.path), r.cl,
-		c14B(r.nilBody), r.bodyTok(), c14Ints(r.rd), c14B(r.eofLast), r.crd, c14KVs("H", r.hdr), c14KVs("T", r.trl))
+		c14B(r.nilBody), r.bodyTok(), c14Ints(r.rd), c14B(r.eofLast), r.crd, r.limTok(), c14KVs("H", r.hdr), c14KVs("T", r.trl))
+}
+
+func (r *c14Req) limTok() string {
+	if r.lim == "" {
+		return "-"
+	}
+	return r.lim
 }
 
 func (r *c14Resp) line() string {
@@ -811,6 +829,7 @@ func c14Exec(ops []string, o *vu.Out) {
 		MaxReadFrameSize:          uint32(c.cfg.cfs),
 		MaxDecoderHeaderTableSize: uint32(c.cfg.cdt),
 		MaxEncoderHeaderTableSize: uint32(c.cfg.cet),
+		MaxHeaderListSize:         uint32(c.cfg.cmh),
 	}
 	tr.t1 = &http.Transport{HTTP2: &http.HTTP2Config{
 		MaxReceiveBufferPerStream:     c.cfg.cws,
@@ -821,7 +840,7 @@ func c14Exec(ops []string, o *vu.Out) {
 	srvDone := make(chan struct{})
 	go func() {
 		defer close(srvDone)
-		srv.ServeConn(sconn, &ServeConnOpts{Handler: http.HandlerFunc(c.handler), BaseConfig: &http.Server{}})
+		srv.ServeConn(sconn, &ServeConnOpts{Handler: http.HandlerFunc(c.handler), BaseConfig: &http.Server{MaxHeaderBytes: c.cfg.smh}})
 	}()
 
 	timedOut := false
@@ -979,6 +998,15 @@ func (c *c14Case) emitFrames(rec *c14Rec, o *vu.Out) {
 		dec[d].SetAllowedMaxDynamicTableSize(1 << 31)
 	}
 	dirName := [2]string{"c", "s"}
+	// advertised MAX_HEADER_LIST_SIZE of the receiver of each direction
+	limit := [2]int{c.cfg.smh + 320, c.cfg.cmh}
+	if c.cfg.smh <= 0 {
+		limit[0] = http.DefaultMaxHeaderBytes + 320
+	}
+	if c.cfg.cmh <= 0 {
+		limit[1] = 10 << 20
+	}
+	firstBlock := map[[2]uint32]bool{}
 	for _, f := range frames {
 		line := fmt.Sprintf("fr %s %d %d %d %s", dirName[f.dir], f.typ, f.flags, f.sid, vu.Hex(f.payload))
 		if name, ok := c14TypeNames[f.typ]; ok {
@@ -1002,8 +1030,21 @@ func (c *c14Case) emitFrames(rec *c14Rec, o *vu.Out) {
 					line += " FERR"
 				} else {
 					line += " F"
+					hls := 0
 					for _, hf := range fields {
 						line += " " + c14HexS(hf.Name) + ":" + c14HexS(hf.Value)
+						hls += len(hf.Name) + len(hf.Value) + 32
+					}
+					if key := [2]uint32{uint32(f.dir), f.sid}; !firstBlock[key] {
+						firstBlock[key] = true
+						switch d := hls - limit[f.dir]; {
+						case d == 0:
+							o.Stat("hls:" + dirName[f.dir] + ":at-limit")
+						case d == -1:
+							o.Stat("hls:" + dirName[f.dir] + ":limit-1")
+						case d > 0:
+							o.Stat("hls:" + dirName[f.dir] + ":above-limit")
+						}
 					}
 				}
 			}
@@ -1119,7 +1160,20 @@ func (c *c14Case) oracle(i int, o *vu.Out) {
 	sq, sr := c.seenReq[i], c.seenRes[i]
 	failQ := func(f string, a ...any) { o.Fail("request-not-faithful", fmt.Sprintf("req %d: ", i)+fmt.Sprintf(f, a...)) }
 	failR := func(f string, a ...any) { o.Fail("response-not-faithful", fmt.Sprintf("req %d: ", i)+fmt.Sprintf(f, a...)) }
-	if sr.err != nil {
+	// One byte above the peer's advertised SETTINGS_MAX_HEADER_LIST_SIZE the exchange must be refused
+	// (an error from RoundTrip), never delivered damaged; at or below the limit everything below applies.
+	over := rq.lim == "req1" || rq.lim == "resp1"
+	if over {
+		if sr.err == nil {
+			o.Fail("over-limit-not-refused", fmt.Sprintf("req %d (%s): header list above the advertised limit, RoundTrip returned no error", i, rq.lim))
+		}
+		if rq.lim == "req1" {
+			if sq.got {
+				failQ("handler ran for a request the client must refuse")
+			}
+			return
+		}
+	} else if sr.err != nil {
 		o.Fail("roundtrip-error", fmt.Sprintf("req %d: %v", i, sr.err))
 	}
 	if !sq.got {
